@@ -520,3 +520,36 @@ def r3(P: Project, R: Report) -> None:
     R.ob("R3", "batching mode not cached outside the reader loop", not cached, rd.where, f"mode read outside the loop at lines {cached}")
     calls_pm = [c for c in walk_local(rloop) if isinstance(c, ast.Call) and call_name(c) == f"self.{pm.name}"]
     R.ob("R3", "reader hands every parsed line to the per-message gate", len(calls_pm) >= 1 or rd is pm, rd.where, "the reader loop no longer calls the gated per-message function")
+
+    # ------------------------------------------------------------------ R4: before anything is negotiated the reader is unversioned
+    R.rule("R4", "until a version has been negotiated batches are accepted: the stdio client's batch processor is built without a version (a constructor parameter that could give it one is never given a value inside the package); the only values that reach it later are a server answer's protocolVersion (C03-R4)")
+    from ..model import ClassInfo, kwarg as _kw
+
+    cli = _stdio.client(P)
+    builds = [(f, c) for f in P.methods(cli).values() for c in walk_local(f.node) if isinstance(c, ast.Call) and call_name(c).split(".")[-1] == "BatchProcessor"]
+    R.need(builds, "anchor: the stdio client no longer builds a BatchProcessor")
+    for f, c in builds:
+        v = c.args[0] if c.args else _kw(c, "protocol_version")
+        where = f"{f.module.rel}:{c.lineno}"
+        if v is None or (isinstance(v, ast.Constant) and v.value is None):
+            R.ob("R4", f"{f.qual}: the batch processor starts unversioned", True, where, "", sample=f"R4 {f.qual}: {ast.unparse(c)}")
+            continue
+        if isinstance(v, ast.Name) and f.name == "__init__" and v.id in f.params():
+            # a way in for the embedding program; inside the package nobody may use it before the handshake has an answer
+            pos = [p for p in f.positional_params() if p != "self"]
+            idx = pos.index(v.id) if v.id in pos else None
+            d = f.param_default(v.id)
+            R.ob("R4", f"{f.qual}: the version parameter defaults to none", isinstance(d, ast.Constant) and d.value is None, where, f"default `{ast.unparse(d) if d is not None else '<required>'}`")
+            n_cons = 0
+            for g in P.funcs.values():
+                for k in walk_local(g.node):
+                    if isinstance(k, ast.Call) and P.resolve_call(g, k) is cli or (isinstance(k, ast.Call) and isinstance(P.resolve_call(g, k), ClassInfo) and P.resolve_call(g, k).name == cli.name):
+                        n_cons += 1
+                        given = _kw(k, v.id) or (k.args[idx] if idx is not None and idx < len(k.args) else None)
+                        starred = any(kk.arg is None for kk in k.keywords)
+                        ok_ = (given is None or (isinstance(given, ast.Constant) and given.value is None) or (isinstance(given, ast.Attribute) and given.attr == "protocolVersion")) and not starred
+                        R.ob("R4", f"{g.qual}: builds the client without a version of its own choosing", ok_, f"{g.module.rel}:{k.lineno}",
+                             f"`{ast.unparse(k)[:70]}` starts the reader in version `{ast.unparse(given)[:40] if given is not None else '**…'}` before the server has answered: if that version does not batch, a batch the server sends ahead of (or with) its initialize answer is rejected with -32600 and none of its members is delivered — although nothing has been negotiated, and although the handshake may then settle on a version that batches")
+            R.need(n_cons >= 1, "anchor: no construction of the stdio client found in the package")
+            continue
+        R.ob("R4", f"{f.qual}: the batch processor starts unversioned", False, where, f"built as `{ast.unparse(c)[:60]}`: the reader applies that version's batching rule before anything is negotiated")
